@@ -199,6 +199,7 @@ Section ClientErr.
     cbn [andb]. destruct data as [|c0 data'] eqn:Ed; [congruence|]. rewrite <- Ed in *.
     assert (Eb : body_of_reader true true data = BData data true) by (rewrite Ed; reflexivity).
     rewrite Eb. rewrite andb_false_r.
+    cbv iota. change (blenZ data) with (blen data). rewrite Z.eqb_refl. cbn [negb]. rewrite andb_false_r.
     change {| rq_method := MPut; rq_url := UDigest (URef (rq_url (request_of (start_upload_rreq repo))) (upath repo id)) dg;
               rq_header := [(h_content_range, Http.range_string 0 (blen data)); (h_content_type, octet_stream)];
               rq_body := BData data true; rq_clen := blen data |}
